@@ -16,6 +16,7 @@ EXPLANATION = (
 )
 
 DRAWS = {"rand", "randn", "random", "normal", "uniform", "randint", "choice", "standard_normal", "random_sample", "sample", "lognormal", "beta", "gamma", "poisson", "binomial", "multivariate_normal", "permutation", "shuffle"}
+ENTROPY = {"os.urandom", "urandom", "secrets.randbits", "secrets.token_bytes", "np.random.SeedSequence", "SeedSequence", "random.SystemRandom"}
 SEEDS = {"np.random.seed", "numpy.random.seed", "random.seed", "sc.setseed"}
 
 
@@ -66,7 +67,24 @@ def draw_calls(fi):
 
 
 def has_reseed(fi):
-    return [c for c in own_nodes(fi.node) if isinstance(c, ast.Call) and ast.unparse(c.func) in SEEDS]
+    """Reseeds from fresh OS entropy: `np.random.seed()` / `seed(None)`.  A reseed with an argument (a constant, the process id, an
+    index) is not counted: it restarts the same stream every time the task runs in that process, so it does not make draws independent."""
+    return [c for c in own_nodes(fi.node) if isinstance(c, ast.Call) and ast.unparse(c.func) in SEEDS and _fresh_entropy(c)]
+
+
+def _fresh_entropy(c):
+    args = list(c.args) + [k.value for k in c.keywords]
+
+    def entropy(a):
+        if isinstance(a, ast.Constant) and a.value is None:
+            return True
+        return any(isinstance(x, ast.Call) and ast.unparse(x.func) in ENTROPY for x in ast.walk(a))
+
+    return all(entropy(a) for a in args)
+
+
+def deterministic_reseeds(fi):
+    return [c for c in own_nodes(fi.node) if isinstance(c, ast.Call) and ast.unparse(c.func) in SEEDS and not _fresh_entropy(c)]
 
 
 def _resolve_task(repo, cg, fi, arg):
@@ -127,6 +145,10 @@ def r17a(ctx, repo, cg):
                 gname = gd.func.value.id
                 rebinders = [f for f in ([init] if init is not None else []) + [task] if f is not None and any(isinstance(x, ast.Global) and gname in x.names for x in own_nodes(f.node))]
                 ctx.check(bool(rebinders), "R17a", cg.byfq[fq], enclosing_stmt(gd), "module-level generator `%s` re-created in every worker" % gname, "`%s` draws from the module-level generator `%s`; %s hands `%s` to forked workers, each of which inherits an identical copy of that generator's state (np.random.seed() in the initialiser does not reseed it): samples run on different workers receive the same perturbations" % (ast.unparse(gd)[:60], gname, kind, task.qualname))
+        # a reseed with a fixed argument anywhere on the worker's path restarts the same stream each time it runs
+        for f in [cg.byfq[q] for q in sorted(seen)] + ([init] if init is not None and kind == "parallel_progress" else []):
+            for dr in deterministic_reseeds(f):
+                ctx.fail("R17a", f, enclosing_stmt(dr), "`%s` on the path of the pool task %s reseeds the global generator with a value that is the same every time it runs in one process (`%s`): all samples drawn after it in that worker repeat the same perturbations; reseed from fresh entropy (no argument)" % (ast.unparse(dr)[:60], task.qualname, ", ".join(ast.unparse(a) for a in dr.args) or "keyword"), stmt_text="deterministic-reseed")
         seeded_by_init = kind == "parallel_progress" and init is not None and bool(has_reseed(init))
         if seeded_by_init:
             # ... on every path through the initialiser: an early return in front of the reseed leaves the forked generator state in place
